@@ -353,6 +353,95 @@ def table_mutations(model):
     return tables, found
 
 
+def mutates_in_place(fn, name):
+    """why the object bound to parameter ``name`` is changed in place by ``fn`` (None if it is not); uses after the first
+    rebinding of the name do not count"""
+    # local aliases of the parameter: ``allowed = expected_values`` (a later rebinding in the *same block* ends the alias; a
+    # rebinding under a condition leaves it in force on the other path)
+    for blk in [b for n in ast.walk(fn) for b in (getattr(n, "body", None), getattr(n, "orelse", None)) if isinstance(b, list)]:
+        for i, st in enumerate(blk):
+            if isinstance(st, ast.Assign) and len(st.targets) == 1 and isinstance(st.targets[0], ast.Name) and \
+                    isinstance(st.value, ast.Name) and st.value.id == name and st.targets[0].id != name:
+                alias = st.targets[0].id
+                end = None
+                for later in blk[i + 1:]:
+                    if isinstance(later, ast.Assign) and any(isinstance(t, ast.Name) and t.id == alias for t in later.targets):
+                        end = later.lineno
+                        break
+                for n in _stmts_in_order(fn):
+                    if n.lineno <= st.lineno or (end is not None and n.lineno >= end):
+                        continue
+                    if isinstance(n, ast.Call) and isinstance(n.func, ast.Attribute) and n.func.attr in MUTATORS and _base_name(n.func.value) == alias:
+                        return "line %s: %s() on its alias %s" % (n.lineno, n.func.attr, alias)
+                    if isinstance(n, ast.AugAssign) and _base_name(n.target) == alias:
+                        return "line %s: its alias %s modified in place" % (n.lineno, alias)
+                    if isinstance(n, (ast.Assign, ast.Delete)):
+                        for t in n.targets:
+                            if isinstance(t, ast.Subscript) and _base_name(t) == alias:
+                                return "line %s: %s changed through its alias" % (n.lineno, ast.unparse(t))
+    why = escapes_or_mutates(fn, name)
+    if why and ("stored into" in why or "returned" in why or "setattr" in why):
+        # stored or returned, not changed: look for a genuine mutation only
+        for n in _stmts_in_order(fn):
+            if isinstance(n, ast.Call) and isinstance(n.func, ast.Attribute) and n.func.attr in MUTATORS and _base_name(n.func.value) == name:
+                return "line %s: %s() on it" % (n.lineno, n.func.attr)
+            if isinstance(n, ast.AugAssign) and _base_name(n.target) == name:
+                return "line %s: %s modified in place" % (n.lineno, ast.unparse(n.target))
+        return None
+    return why
+
+
+def tables_mutated_through_calls(model, tables):
+    """{(module, table): [where]}: a table handed to a function that changes that parameter in place"""
+    from ..model import FuncRef
+    summary = {}
+    for f in model.all_functions():
+        for i, a in enumerate(f.node.args.posonlyargs + f.node.args.args):
+            why = mutates_in_place(f.node, a.arg)
+            if why:
+                summary.setdefault(f, {})[i] = (a.arg, why)
+    found = {}
+    if not summary:
+        return found
+    for f in model.all_functions():
+        locs = _local_names(f.node)
+        for call in [n for n in ast.walk(f.node) if isinstance(n, ast.Call)]:
+            cands = []
+            for j, a in enumerate(call.args):
+                if isinstance(a, (ast.Name, ast.Attribute)):
+                    d = dotted(a)
+                    if d and d.split(".")[0] not in locs:
+                        k = _resolve_table(model, f.module, a, tables)
+                        if k:
+                            cands.append((j, None, k))
+            for kw in call.keywords:
+                if kw.arg and isinstance(kw.value, (ast.Name, ast.Attribute)):
+                    d = dotted(kw.value)
+                    if d and d.split(".")[0] not in locs:
+                        k = _resolve_table(model, f.module, kw.value, tables)
+                        if k:
+                            cands.append((None, kw.arg, k))
+            if not cands:
+                continue
+            try:
+                targets, exact = model.resolve_call(f, call)
+            except Exception:
+                continue
+            for g in targets or ():
+                if g not in summary:
+                    continue
+                params = [a.arg for a in g.node.args.posonlyargs + g.node.args.args]
+                shift = 1 if (g.cls is not None and g.node.name not in g.cls.staticmethods and isinstance(call.func, ast.Attribute)
+                              and not (isinstance(call.func.value, ast.Name) and call.func.value.id == g.cls.name)) else 0
+                for j, kwname, k in cands:
+                    idx = (j + shift) if j is not None else (params.index(kwname) if kwname in params else None)
+                    if idx is not None and idx in summary[g]:
+                        pname, why = summary[g][idx]
+                        found.setdefault(k, []).append("%s:%s in %s: handed to %s, which changes its parameter %r in place (%s)" % (
+                            f.module.rel(), call.lineno, f.qname, g.qname, pname, why))
+    return found
+
+
 KEYED = ("__setitem__", "__getitem__", "__delitem__", "__contains__", "get", "pop", "setdefault", "has_key")
 LOOKUPS = ("__setitem__", "__getitem__", "__contains__", "get")
 
@@ -462,6 +551,8 @@ def apply_sharing(model, rep, pid):
                msg="" if not bad else "; ".join(bad[:3]), facts={"classes": len(m.classes)})
         n += 2
     tables, found = table_mutations(model)
+    for k, where in tables_mutated_through_calls(model, tables).items():
+        found.setdefault(k, []).extend(where)
     for (mod, name) in sorted(tables):
         props = TABLE_PROPS.get(name, DEFAULT_PROPS)
         if pid not in props:
